@@ -217,9 +217,10 @@ impl Check for C18 {
         for _ in 0..rng.range(0, 3) {
             let at = 1 + rng.usize_below(n.max(1));
             let b = rng.below(4);
-            let op = match rng.below(4) {
+            let op = match rng.below(6) {
                 0 | 1 => Op::new("set_tab_width").n(b).n(*rng.pick(&[0, 2, 4, 8])),
                 2 => Op::new("mp_suspend").s("Vx"),
+                3 => Op::new("retarget_hidden").n(b),
                 _ => Op::new("suspend").n(b).n(0).s("Ux"),
             };
             ops.insert(at.min(ops.len()), op);
